@@ -84,6 +84,11 @@ struct host_query {
 
   /* Track nodata responses to possibly override final result */
   size_t                nodata_cnt;
+
+  /* A lookup failed for lack of memory.  Its addresses are missing for a reason
+   * that has nothing to do with the name, so the request must fail rather than
+   * report the other lookup's addresses as the complete answer */
+  ares_bool_t           nomem;
 };
 
 static const struct ares_addrinfo_hints default_hints = {
@@ -576,12 +581,18 @@ static void host_callback(void *arg, ares_status_t status, size_t timeouts,
     }
   }
 
+  if (status == ARES_ENOMEM || addinfostatus == ARES_ENOMEM) {
+    hquery->nomem = ARES_TRUE;
+  }
+
   if (!hquery->remaining) {
     if (status == ARES_EDESTRUCTION || status == ARES_ECANCELLED) {
       /* must make sure we don't do next_lookup() on destroy or cancel,
        * and return the appropriate status.  We won't return a partial
        * result in this case. */
       end_hquery(hquery, status);
+    } else if (hquery->nomem) {
+      end_hquery(hquery, ARES_ENOMEM);
     } else if (addinfostatus != ARES_SUCCESS && addinfostatus != ARES_ENODATA) {
       /* error in parsing result e.g. no memory */
       if (addinfostatus == ARES_EBADRESP && hquery->ai->nodes) {
